@@ -108,13 +108,13 @@ type FuncSpec struct {
 	Pure      bool
 	Trusted   bool
 	ViewOf    string // `view <module>`: a weaker view of the contract verified in that module of the same package (clauses checked to be a subset)
-	Closure   bool // the contract is about the function literal this function returns (its free variables are the outer parameters)
-	InputOnly bool // `inputs`: the spec only states input assumptions (requires) of an exported method for the invariant sweep; the body is executed there
-	Inline    bool // the spec only carries loop invariants: the function is inlined at every call site (e.g. it takes an iterator)
-	Logged    bool // every call is recorded in the ghost log xcalls("<Func>") and its first result as cres("<Func>", i)
+	Closure   bool   // the contract is about the function literal this function returns (its free variables are the outer parameters)
+	InputOnly bool   // `inputs`: the spec only states input assumptions (requires) of an exported method for the invariant sweep; the body is executed there
+	Inline    bool   // the spec only carries loop invariants: the function is inlined at every call site (e.g. it takes an iterator)
+	Logged    bool   // every call is recorded in the ghost log xcalls("<Func>") and its first result as cres("<Func>", i)
 	Nofault   bool
 	Reveal    []string // opaque pure functions whose definitions this proof may use
-	Given     Expr // condition under which no fault may occur
+	Given     Expr     // condition under which no fault may occur
 	GivenText string
 	Loops     []LoopSpec
 }
